@@ -363,7 +363,20 @@ def _run_dict(case, mon, h):
 # -- layer "es": the EquationSystem wrappers on an md-grid
 def _run_es(case, mon, h):
     pp = h.pp
+    if (int(case["mdg"].get("domain", [0])[0]) + len(case["vars"])) % 2 == 0:
+        # subdomains and interfaces are numbered by separate counters; at the start of a
+        # process the two ranges coincide.  Reproduce that state: let the interface counter
+        # catch up with the grid counter (dummy mortar grids on one reused side grid), so
+        # that the md-grid built next has subdomains and interfaces with EQUAL ids
+        side = pp.CartGrid(np.array([1]))
+        side.compute_geometry()
+        probe = pp.MortarGrid(1, {pp.grids.mortar_grid.MortarSides.LEFT_SIDE: side}, None)
+        for _ in range(max(0, min(side.id - probe.id, 5000))):
+            pp.MortarGrid(1, {pp.grids.mortar_grid.MortarSides.LEFT_SIDE: side}, None)
+        mon.count("md_grids_with_aligned_subdomain_and_interface_ids")
     mdg = gm.build(case["mdg"])
+    if mdg.interfaces() and {g.id for g in mdg.subdomains()} & {i.id for i in mdg.interfaces()}:
+        mon.count("md_grids_where_a_subdomain_and_an_interface_share_an_id")
     es = pp.ad.EquationSystem(mdg)
     ref = RefLayout(mdg)
     cw.CTX.es = es
